@@ -171,16 +171,33 @@ def run_rules(prog, tab):
                     return "fail"       # the code was replaced by a constant other than WMORE
                 if t[1] != var and v is None:
                     return "fail"
-                if v is None or v == 0:
+                if v == 0:
                     return "fail"
+                if v is None:
+                    return "unknown:untouched"
                 return "success"
             hits = assume.explore(f, b, i, subj, 1, classify, origin_callid=e.get("id"), from_entry=False, subject_return_ok=False)
-            hits = [h for h in hits if h[0] == "success"]
+            # `consumed` left as the callee reported it is fine when the callee's partial work survives (it keeps its own
+            # context inside the structure); it is not when this function throws the partial value away on the way out
+            def discards(path, b=b):
+                # some way from the call to this return releases something (the reported path is only one of them)
+                fwd = f.reachable_from([b.id])
+                bwd = f.reachable_from([path[-1]], forward=False)
+                for bid in fwd & bwd:
+                    for y in f.blocks[bid].ev:
+                        if y["k"] == "call" and (y.get("slot") == "free_struct" or y.get("callee") in ("free",)):
+                            return True
+                return False
+            # a directly called stateless decoder reports 0 with its own WMORE (that is R05.1 for the callee): handing that on
+            # untouched is fine even when the temporary is released
+            cal = prog.resolve_direct(e["callee"], f) if "callee" in e else None
+            callee_reports_zero = cal is not None and not is_stateful(cal)
+            hits = [h for h in hits if h[0] == "success" or (h[0] == "unknown:untouched" and not callee_reports_zero and discards(h[4]))]
             key = "passes-on:%s" % (e.get("callee") or ("->" + e["slot"] if e.get("slot") else "indirect"))
             if hits:
                 kind, rb, ri, re_, path, lost = hits[0]
-                r1.bad(f, key, "assuming this call answered RC_WMORE, the result is returned at line %s with its consumed count replaced by "
-                               "a non-zero expression although this decoder keeps no context: the caller skips bytes of a value that will be "
+                r1.bad(f, key, "assuming this call answered RC_WMORE, the result is returned at line %s with a consumed count that is not 0 "
+                               "(replaced by a non-zero expression, or left as the callee set it while the partial value is released) although this decoder keeps no context: the caller skips bytes of a value that will be "
                                "decoded from its start again" % re_.get("line"), e["line"], witness={"path": guards.path_lines(f, list(path))})
             else:
                 r1.ok(f, key, "a WMORE of the callee is passed on with consumed untouched or 0", e["line"])
